@@ -47,6 +47,7 @@ class Return(NamedTuple):
     slope: FeArray
     drdtheta: FeArray
     active: FeArray
+    converged: FeArray
 
 
 class Eigenspace(NamedTuple):
@@ -112,6 +113,24 @@ def Solve(
     # a point yields when the trial state is already outside the surface
     active_e_pg = phi_e_pg - sigma_y - hardening.R(pOld_e_pg) > 0.0
 
+    if rate is not None:
+        # dinverse is unbounded at zero flow, so Newton hardly moves away from theta = 0. Start
+        # from the explicit rate estimate instead (as the general solve does), pulled back until
+        # it is on the near side of the root: r decreases with theta, so from r >= 0 the
+        # iteration climbs to the root rather than being thrown back onto the clamp.
+        f_e_pg = phi_e_pg - sigma_y - hardening.R(pOld_e_pg)
+        safe_e_pg = np.where(phi_e_pg > 0, phi_e_pg, 1.0)
+        theta_e_pg = np.where(active_e_pg, dt * rate.rate(f_e_pg) / safe_e_pg, 0.0)
+        for _ in range(60):
+            phi_e_pg, _ = _Phi(y_e_pg, lam, theta_e_pg)
+            dG_e_pg = theta_e_pg * phi_e_pg
+            r_e_pg = phi_e_pg - sigma_y - hardening.R(pOld_e_pg + dG_e_pg)
+            r_e_pg = r_e_pg - rate.inverse(dG_e_pg / dt)
+            beyond_e_pg = active_e_pg & (r_e_pg < 0.0)
+            if not np.any(beyond_e_pg):
+                break
+            theta_e_pg = np.where(beyond_e_pg, 0.25 * theta_e_pg, theta_e_pg)
+
     slope_e_pg = FeArray.zeros(*theta_e_pg.shape)
     for _ in range(maxIter):
         phi_e_pg, dphi_e_pg = _Phi(y_e_pg, lam, theta_e_pg)
@@ -136,6 +155,12 @@ def Solve(
     ddG_e_pg = phi_e_pg + theta_e_pg * dphi_e_pg
     drdtheta_e_pg = dphi_e_pg - slope_e_pg * ddG_e_pg
 
+    # the loop may have run out of iterations: say so, per point, rather than assume it converged
+    r_e_pg = phi_e_pg - sigma_y - hardening.R(pOld_e_pg + dG_e_pg)
+    if rate is not None:
+        r_e_pg = r_e_pg - rate.inverse(dG_e_pg / dt)
+    converged_e_pg = np.where(active_e_pg, np.abs(r_e_pg), 0.0) < tol * sigma_y
+
     d_e_pg = 1.0 / (1.0 + theta_e_pg * lam)
     sig_e_pg = _Field(eigen.T, y_e_pg) @ (y_e_pg * d_e_pg)
 
@@ -149,6 +174,7 @@ def Solve(
         slope_e_pg,
         drdtheta_e_pg,
         active_e_pg,
+        converged_e_pg,
     )
 
 
